@@ -3,6 +3,8 @@ package message
 import (
 	"context"
 	"sync"
+
+	"github.com/ThreeDotsLabs/watermill/verifhook"
 )
 
 // MessageTransformSubscriberDecorator creates a subscriber decorator that calls transform
@@ -49,11 +51,17 @@ func (t *messageTransformSubscriberDecorator) Subscribe(ctx context.Context, top
 	out := make(chan *Message)
 	t.subscribeWg.Add(1)
 	go func() {
+		verifhook.At("decorator.pump.start", topic)
 		for msg := range in {
+			verifhook.At("decorator.pump.recv", msg.UUID)
 			t.transform(msg)
+			verifhook.At("decorator.pump.before_send", msg.UUID)
 			out <- msg
+			verifhook.At("decorator.pump.sent", msg.UUID)
 		}
+		verifhook.At("decorator.pump.closing_out")
 		close(out)
+		verifhook.At("decorator.pump.wg_done")
 		t.subscribeWg.Done()
 	}()
 
@@ -61,9 +69,12 @@ func (t *messageTransformSubscriberDecorator) Subscribe(ctx context.Context, top
 }
 
 func (t *messageTransformSubscriberDecorator) Close() error {
+	verifhook.At("decorator.close.call")
 	err := t.sub.Close()
+	verifhook.At("decorator.close.inner_closed")
 
 	t.subscribeWg.Wait()
+	verifhook.At("decorator.close.waited")
 	return err
 }
 
